@@ -31,6 +31,8 @@ import (
 //	NVF  NEW_VIEW with votes attributed to honest members under garbage signatures (P4 variant)
 //	NVW  NEW_VIEW ignoring the lock (fresh block although a vote carries a proof)  (P4 variant)
 //	NVH  NEW_VIEW whose embedded PREPREPARE hash differs from the proven/attached block (P4 variant)
+//	NC   the adversary's own PREPARE / COMMIT / PREPREPARE(view 0) / VIEW_CHANGE, genuinely signed over a NON-CANONICAL
+//	     encoding of the signed header (the canonical bytes followed by padding): every field reads the same
 //	NVB  NEW_VIEW valid in every signed part whose attached (unsigned) block body is another block (P4 variant)
 //	OUT  outsider-signed PREPARE / COMMIT / VIEW_CHANGE                            (P7)
 //	XT   cross-type replay: an honest PREPARE header+signature wrapped as COMMIT    (P6)
@@ -305,6 +307,15 @@ func (a *Adv) build(soup []Sent, t *LState) []int {
 				add(a.fac[string(b)].CreateCommitMessage(H, primitives.View(v), hash), "PC")
 			}
 		}
+		if a.on("NC") {
+			for _, b := range signers {
+				share := kit.Share(b, H, randomseed.RandomSeedToBytes(randomseed.CalculateRandomSeed(nil)))
+				if r.Leader(v) != string(b) && v >= t.View {
+					addRaw(mkBlockRefMsgPad(ref.KP, brefT{T: protocol.LEAN_HELIX_PREPARE, I: kit.Instance, H: H, V: primitives.View(v), Hash: hash}, signerT{ID: b, Mode: "valid"}, nil, nil, ncPad), "NC")
+				}
+				addRaw(mkBlockRefMsgPad(ref.KC, brefT{T: protocol.LEAN_HELIX_COMMIT, I: kit.Instance, H: H, V: primitives.View(v), Hash: hash}, signerT{ID: b, Mode: "valid"}, share, nil, ncPad), "NC")
+			}
+		}
 		if a.on("OUT") && a.out != nil {
 			if v >= t.View {
 				add(a.fac["xo"].CreatePrepareMessage(H, primitives.View(v), hash), "OUT")
@@ -353,6 +364,22 @@ func (a *Adv) build(soup []Sent, t *LState) []int {
 			for _, tag := range e.Cfg.Alphabet {
 				blk := a.blockFor(h, tag)
 				add(a.fac[string(b)].CreatePreprepareMessage(H, primitives.View(v), blk, kit.HashOf(blk)), prim)
+			}
+		}
+	}
+	if a.on("NC") {
+		// PREPREPARE of view 0 by its Byzantine leader over a padded header; proof-less vote over a padded header to the target as leader
+		for _, b := range a.byz {
+			if r.Leader(0) == string(b) && (e.Cfg.Eager || t.View == 0) {
+				for _, tag := range e.Cfg.Alphabet {
+					blk := a.blockFor(h, tag)
+					addRaw(mkBlockRefMsgPad(ref.KPP, brefT{T: protocol.LEAN_HELIX_PREPREPARE, I: kit.Instance, H: H, V: 0, Hash: kit.HashOf(blk)}, signerT{ID: b, Mode: "valid"}, nil, blk, ncPad), "NC")
+				}
+			}
+			for v := uint64(1); v <= e.Cfg.MaxView; v++ {
+				if r.Leader(v) == me && (e.Cfg.Eager || v >= t.View) {
+					addRaw(mkVC(voteT{T: protocol.LEAN_HELIX_VIEW_CHANGE, I: kit.Instance, H: H, V: primitives.View(v), S: signerT{ID: b, Mode: "valid"}, Pad: ncPad}, nil), "NC")
+				}
 			}
 		}
 	}
@@ -671,6 +698,9 @@ func (a *Adv) emptyHashProofs(soup []Sent, h, v uint64) []proofT {
 	}
 	return res
 }
+
+// ncPad: what follows the canonical bytes of a signed header in the NC primitive.
+var ncPad = []byte{0, 0, 0, 0}
 
 func (a *Adv) owns(id primitives.MemberId) bool {
 	for _, b := range a.byz {
